@@ -217,7 +217,7 @@ pub fn user_mapping_entry(u: &UserMap) -> MappingEntry {
         mapping: MappingInfo {
             start_address: u.start as usize,
             size: u.size as usize,
-            system_mapping_info: SystemMappingInfo { start_address: u.start as usize, end_address: (u.start + u.size) as usize },
+            system_mapping_info: SystemMappingInfo { start_address: u.start as usize, end_address: u.start.saturating_add(u.size) as usize },
             offset: u.offset as usize,
             permissions: super::dumper::perms_of(u.perms),
             name: u.name.as_ref().map(|s| s.into()),
@@ -257,7 +257,11 @@ pub fn make_writer(pid: i32, o: &DumpOpts) -> MinidumpWriter {
             entry_address: a[3],
         });
     }
-    w.stop_timeout(std::time::Duration::from_millis(o.stop_timeout_ms.unwrap_or(2000)));
+    w.stop_timeout(match o.stop_timeout_ms {
+        Some(u64::MAX) => std::time::Duration::MAX,
+        Some(v) if v == u64::MAX - 1 => std::time::Duration::from_secs(u64::MAX / 4),
+        v => std::time::Duration::from_millis(v.unwrap_or(2000)),
+    });
     w
 }
 
